@@ -471,3 +471,31 @@ where
     node.left = newright;
     node.right = newleft;
 }
+
+#[cfg(feature = "verif-hooks")]
+impl<K, V, C> SplayTree<K, V, C>
+where
+    C: Fn(&K, &K) -> Ordering,
+{
+    /// Height of the tree (0 for the empty tree), computed without recursion.
+    /// Instrumentation for the external verification harness.
+    pub fn verif_height(&self) -> usize {
+        let mut max = 0;
+        let mut pending: Vec<(&Node<K, V>, usize)> = Vec::new();
+        if let Some(ref root) = self.root_ref() {
+            pending.push((root, 1));
+        }
+        while let Some((node, depth)) = pending.pop() {
+            if depth > max {
+                max = depth;
+            }
+            if let Some(ref left) = node.left {
+                pending.push((left, depth + 1));
+            }
+            if let Some(ref right) = node.right {
+                pending.push((right, depth + 1));
+            }
+        }
+        max
+    }
+}
